@@ -149,6 +149,12 @@ func gen(r *sim.Rng, tier string) *sim.Case {
 	switch {
 	case r.Pct(2):
 		req = []int{16, 100, 1 << 10, 1 << 16}[r.N(4)]
+	case r.N(1000) < 3:
+		// rare: a really large requested capacity (not a power of two)
+		req = []int{65537, 70001, 100001, 131073, 200002, 262145}[r.N(6)]
+		if r.Bool() {
+			req = r.Range(65537, 300000)
+		}
 	case r.Pct(12):
 		// "every capacity": any requested capacity up to a few thousand, with a preference for
 		// values next to powers of two and next to 1.5 times a power of two
@@ -170,7 +176,9 @@ func gen(r *sim.Rng, tier string) *sim.Case {
 	case 1:
 		c.Params["pairs"] = r.N(3*capEff + 1)
 	case 2:
-		c.Params["pairs"] = (1 << 32) - r.N(2*capEff+3)
+		// counters just below a power of two: 2^32 (wrap) mostly, 2^16 / 2^24 / 2^31 sometimes
+		top := []int{32, 32, 32, 16, 24, 31}[r.N(6)]
+		c.Params["pairs"] = (1 << top) - r.N(2*capEff+3)
 	}
 	if capEff > 16 {
 		// big rings: few real pairs only (validating the fast-forward there costs seconds)
